@@ -64,7 +64,7 @@ func TestVFC15RefreshVsAdmin(t *testing.T) {
 			for {
 				select {
 				case params := <-w.d.filtersInitializerChan:
-					if ierr := w.d.initFiltering(params.allowFilters, params.blockFilters); ierr != nil {
+					if ierr := w.d.initFilteringGen(params.gen, params.allowFilters, params.blockFilters); ierr != nil {
 						t.Fatalf("rebuilding the engines: %v", ierr)
 					}
 				default:
